@@ -14,6 +14,7 @@ import JP.Query
 import JP.Rfc9535
 import JP.RegexImpl
 import JP.Fluent
+import JP.Typing
 open Lean JP
 
 namespace Drv
@@ -450,7 +451,9 @@ def handle (req : Json) : Except String Json := do
     pure (Json.mkObj [("model", encRun (Fluent.run ops (.src l))), ("spec", encRun (Fluent.runSpec ops l))])
   | "q.typed" =>
     let path ← decPath (← req.getObjVal? "path")
-    pure (Json.mkObj [("wt", .bool (Rfc.wtSegs path.segs))])
+    let tbl := Typing.tableOfGenerated Generated.functions
+    pure (Json.mkObj [("wt", .bool (Rfc.wtSegs path.segs)), ("gate", .bool (Typing.gateSegs tbl path.segs)),
+                      ("scope", .bool (Rfc.stdSegs path.segs && Typing.cmpAtomicSegs path.segs && Typing.wfDeepSegs path.segs))])
   | "q.slice" =>
     let len ← req.getObjValAs? Nat "len"
     let a ← optInt (← req.getObjVal? "a")
